@@ -163,6 +163,20 @@ def run(ctx):
                     meta.append({'shape': s, 'kind': 'symmetry', 'degenerate': degenerate_on_grid(s, U, 1, box), 'shape_id': t})
             except Exception:  # noqa
                 pass
+    # circles that leave only a minute corner of some pixel uncovered (overlap within 1e-5 of 1): the value is still an area, not 1;
+    # off the lattice, so only the sum = analytic area clause applies (tolerance 1e-6 of a pixel)
+    from regions import CirclePixelRegion, PixCoord
+    for t2 in range(30 if quick else 300):
+        cx, cy = rnd.uniform(-20, 20), rnd.uniform(-20, 20)
+        ix, iy = math.floor(cx) + rnd.randint(2, 6), math.floor(cy) + rnd.randint(1, 5)
+        eps = rnd.choice([4e-4, 1e-3, 2e-3, 3e-3])
+        r = math.hypot(ix + 0.5 - cx, iy + 0.5 - cy) - eps            # the far corner of pixel (ix, iy) protrudes by eps
+        data = np.asarray(CirclePixelRegion(PixCoord(cx, cy), r).to_mask(mode='exact').data, dtype=float)
+        area = math.pi * r * r
+        tot = float(data.sum()) if np.isfinite(data).all() else -1.0
+        s2 = {'k': 'circle', 'cx': cx, 'cy': cy, 'r': r, 'inc': 'absent', 'off_lattice': True}
+        events.append({'ev': 'equal', 'a': int(round(tot * 1e7)), 'b': int(round(area * 1e7)), 'tol': 10, 'what': 'mask_sum_is_not_the_analytic_area'})
+        meta.append({'shape': s2, 'kind': 'sum-near-corner', 'sum': tot, 'area': area, 'degenerate': False, 'shape_id': 100000 + t2})
     wd = tlc.workdir('c03trace')
     path = os.path.join(wd, 'events.json')
     with open(path, 'w') as f:
